@@ -19,6 +19,9 @@ func checkC06(r *Run) {
 	ruleBufferPoolClean(r, p, []string{""})
 	if dw := p.Method("diode", "Writer", "Write"); dw != nil {
 		rulePoolBoundsAgree(r, p, "POOLBOUND", []string{"", "diode"})
+		ruleEncodersStateless(r, p, "STATELESS", []string{"internal/json", cborRel})
+		ruleTLWPaths(r, p) // a held event reaches the destination as the one intact Write it was (C15's framing rules)
+		ruleTLWFrame(r, p)
 		ruleCopyBeforePublish(r, p, dw) // a writer in front of a diode recycles its buffer after Write returns (C10's rule)
 	}
 	r.Floor("A3", 8)
